@@ -355,7 +355,8 @@ Fixpoint run (fuel : nat) (rs : rsrc) (sep : bytes) (lang : option bytes) (b : b
           match s with
           | SErr e msg =>
             let v2 := set_page_err v1 msg in
-            if getf (v_st v2) FLAG_LOADFAIL then (v2, move_catch_code, SOk) else (v2, b2, s)
+            if getf (v_st v2) FLAG_LOADFAIL && negb (bytes_eqb (where_sym (v_st v2)) catch_sym)
+            then (v2, move_catch_code, SOk) else (v2, b2, s)
           | _ => (v1, b2, s)
           end in
         match s2 with
